@@ -617,27 +617,12 @@ func (e StdEng) Outer(a, b, prealloc Tensor) (err error) {
 	var lda int
 	switch {
 	case pdo.IsColMajor():
-		aShape := a.Shape().Clone()
-		bShape := b.Shape().Clone()
-		if err = a.Reshape(aShape[0], 1); err != nil {
-			return err
-		}
-		if err = b.Reshape(1, bShape[0]); err != nil {
-			return err
-		}
-
-		if err = e.MatMul(a, b, prealloc); err != nil {
-			return err
-		}
-
-		if err = b.Reshape(bShape...); err != nil {
-			return
-		}
-		if err = a.Reshape(aShape...); err != nil {
-			return
-		}
-		return nil
-
+		// The operands must not be touched (they used to be reshaped in place, and stayed reshaped when an error
+		// occurred). A column-major m×n matrix is the row-major n×m matrix of the transposed product:
+		// A = x·yᵀ  <=>  Aᵀ = y·xᵀ, so let GER fill Aᵀ.
+		ad, bd = bd, ad
+		m, n = n, m
+		lda = n
 	case pdo.IsRowMajor():
 		lda = pd.Shape()[1]
 	}
